@@ -52,6 +52,13 @@ attribute copy that passes values through a numeric cast (builtin, a helper retu
 conditional form) is refuted, str() is accepted, other wrappers are undecided; a custom column list read from a module level
 container that functions store into (cross-call cache) is refuted.
 
+Round 8 additions: table-driven writer cells `[fmt(getattr(task, name)) for name, fmt in <literal table>]` are unrolled
+(_unroll_listcomp); `**{f: getattr(x, f) for f in <literal names>}` / `**{'id': ..}` in the TaskRaw / Task constructor calls are
+unrolled into keywords; a header map built in place in read_csv is recognised; NAME_SET = frozenset(NAMES) is a constant;
+`S in ('', 'None')` is an emptiness test, and for TEXT columns an emptiness test that also holds for non-empty cells (literal
+spellings of "missing", test after strip()) is refuted; work-list tree walks (W.pop()/popleft() with W.extend()/extendleft()) are
+judged: same side without reversed(..) -> siblings reversed (refuted), with reversed(..) -> pre-order, other combinations undecided.
+
 Not decided: the csv module's quoting (trusted stdlib, default dialect only), a hand-rolled date parser with its own year
 pivot (undecided), custom attribute
 names that collide with Task members, tasks whose parent_id is dangling, numeric behaviour of float()/str().
@@ -391,6 +398,11 @@ def ob_columns(ctx, o, F):
     else:
         rfixed, rcustom = _split_concat(r)
     F.row_func = rowf
+    if isinstance(rfixed, ast.ListComp):
+        # table-driven default cells: `[fmt(getattr(task, name)) for name, fmt in <literal (name, formatter) table>]`
+        un = _unroll_listcomp(rfixed)
+        if un is not None:
+            rfixed = un
     if not isinstance(rfixed, (ast.List, ast.Tuple)) or any(isinstance(e, ast.Starred) for e in rfixed.elts):
         o.undecided(f, rcall, rcall, f"row `{src(r if r is not None else rfixed)[:100]}` is not <list literal> + <custom cells>")
         return
@@ -847,6 +859,26 @@ def _header_map(ctx, o, F, r, hexpr):
         triple = (hexpr.key, hexpr.value, g.target, g.iter, None)
         hf = f
         first_row = _iter_source(g.iter)
+    elif isinstance(hexpr, ast.Name) and hexpr.id in fx.acc:
+        # built in place: `header = {}` / `for i, name in enumerate(next(reader)): header[name..] = i` before the row loop
+        name = hexpr.id
+        stores = [n for n in walk_no_nested(f.node) if isinstance(n, ast.Assign) and len(n.targets) == 1 and isinstance(n.targets[0], ast.Subscript)
+                  and isinstance(n.targets[0].value, ast.Name) and n.targets[0].value.id == name]
+        muts = [n for n in walk_no_nested(f.node) if isinstance(n, ast.Call) and isinstance(n.func, ast.Attribute) and isinstance(n.func.value, ast.Name)
+                and n.func.value.id == name and n.func.attr in ('update', 'setdefault', 'pop', 'clear', 'popitem')]
+        if len(stores) == 1 and not muts and len(fx.flow.defs_of(name)) == 1:
+            st = stores[0]
+            fors = fx.enclosing_fors(st)
+            if len(fors) == 1 and fors[0] is not loop and fx.cfg.conditions(fx.cfg.node_of(st)) == fx.cfg.conditions(fx.cfg.node_of(fors[0])) \
+                    and fx.cfg.node_of(loop) is not None and fx.cfg.dominates(fx.cfg.node_of(fors[0]), fx.cfg.node_of(loop)):
+                keep = [n.id for n in ast.walk(fors[0].target) if isinstance(n, ast.Name)]
+                itx = fx.x(fors[0].iter)
+                triple = (fx.x(st.targets[0].slice, keep=keep), fx.x(st.value, keep=keep), fors[0].target, itx, None)
+                hf = f
+                first_row = _iter_source(itx)
+                if first_row is None and isinstance(itx, ast.Call) and isinstance(itx.func, ast.Name) and itx.func.id == 'range' and itx.args \
+                        and _is_len(itx.args[-1]):
+                    first_row = itx.args[-1].args[0]
     if triple is None:
         o.undecided(f, r['ctor'], hexpr, f"header map `{src(hexpr)[:80]}` is not built by a recognised name -> index loop")
         return
@@ -1432,7 +1464,12 @@ def _reader_column(ctx, o, f, node, col, vx, S, W, R):
                 if not (isinstance(leaf, ast.Constant) and leaf.value is None):
                     bad(f"empty cell -> {src(leaf)[:50]}", f"an empty `{col}` cell (written for None) is read as `{src(leaf)[:50]}`; expected None")
             elif kind == 'text':
-                if not ((isinstance(leaf, ast.Constant) and leaf.value in (None, '')) or same(leaf, S)):
+                from .c13_util import overbroad_empty
+                why = overbroad_empty(conds, S) if not same(leaf, S) else []
+                if why:
+                    bad(f"missing when {cond_text(conds)[:60]}", f"text column `{col}` is read as `{src(leaf)[:20]}` when `{cond_text(conds)[:60]}`: {'; '.join(why)} - "
+                                                                f"text fields may contain any characters, such a name does not come back")
+                elif not ((isinstance(leaf, ast.Constant) and leaf.value in (None, '')) or same(leaf, S)):
                     bad(f"empty cell -> {src(leaf)[:50]}", f"an empty `{col}` cell is read as `{src(leaf)[:50]}`; expected None or ''")
             elif kind == 'bool':
                 if isinstance(leaf, ast.Constant) and leaf.value not in (False, None, 0, ''):
@@ -2043,6 +2080,60 @@ def _numeric_cast(ctx, caller, fname):
     return None
 
 
+def _unroll_name_dict(e):
+    """{K: <expr over K> for K in <literal sequence of names>} -> {name: expr with K replaced, getattr(x, 'name') folded to x.name}
+    (a dict literal with constant string keys is taken as it is); else None"""
+    if isinstance(e, ast.Dict) and e.keys and all(k is not None and const_str(k) is not None for k in e.keys):
+        return {k.value: v for k, v in zip(e.keys, e.values)}
+    if not (isinstance(e, ast.DictComp) and len(e.generators) == 1 and not e.generators[0].ifs and isinstance(e.generators[0].target, ast.Name)
+            and isinstance(e.key, ast.Name) and e.key.id == e.generators[0].target.id):
+        return None
+    names = const_seq(e.generators[0].iter)
+    if not names or not all(isinstance(n, str) for n in names) or len(set(names)) != len(names):
+        return None
+    kn = e.key.id
+    return {nm: ast.fix_missing_locations(_FoldGetattr().visit(subst(e.value, {kn: ast.Constant(value=nm)}))) for nm in names}
+
+
+class _FoldGetattr(ast.NodeTransformer):
+    """getattr(x, 'name') / x.__getattribute__('name') with a literal name -> x.name"""
+    def visit_Call(self, n):
+        self.generic_visit(n)
+        if isinstance(n.func, ast.Name) and n.func.id == 'getattr' and len(n.args) == 2 and const_str(n.args[1]) is not None and not n.keywords:
+            return ast.Attribute(value=n.args[0], attr=n.args[1].value, ctx=ast.Load())
+        if isinstance(n.func, ast.Attribute) and n.func.attr == '__getattribute__' and len(n.args) == 1 and const_str(n.args[0]) is not None:
+            return ast.Attribute(value=n.func.value, attr=n.args[0].value, ctx=ast.Load())
+        return n
+
+
+def _unroll_listcomp(e):
+    """[<expr over a, b> for a, b in [(A1, B1), (A2, B2), ..]] (a literal table, already resolved) -> [<expr with A1, B1>, ..] as an
+    ast.List; anything else -> None"""
+    if not (isinstance(e, ast.ListComp) and len(e.generators) == 1 and not e.generators[0].ifs and not e.generators[0].is_async):
+        return None
+    g = e.generators[0]
+    if not (isinstance(g.iter, (ast.List, ast.Tuple)) and g.iter.elts):
+        return None
+    if isinstance(g.target, ast.Name):
+        names = None
+    elif isinstance(g.target, ast.Tuple) and all(isinstance(x, ast.Name) for x in g.target.elts):
+        names = [x.id for x in g.target.elts]
+    else:
+        return None
+    cells = []
+    for row in g.iter.elts:
+        if names is None:
+            sub = {g.target.id: row}
+        elif isinstance(row, (ast.Tuple, ast.List)) and len(row.elts) == len(names):
+            sub = dict(zip(names, row.elts))
+        else:
+            return None
+        if any(isinstance(x, ast.Starred) for x in ast.walk(row)):
+            return None
+        cells.append(_FoldGetattr().visit(subst(e.elt, sub)))
+    return ast.fix_missing_locations(ast.List(elts=cells, ctx=ast.Load()))
+
+
 def ob_fields(ctx, o, F):
     prog = ctx.prog
     t2r, r2w = prog.func(RAW + '.tasks_to_raws'), prog.func(RAW + '.raws_to_wbs')
@@ -2059,6 +2150,17 @@ def ob_fields(ctx, o, F):
     dkw, dstar = call_kwargs(dctor, task_sn.params())
     akw = {k: fxa.x(v, keep=[tvar]) for k, v in akw.items()}
     dkw = {k: fxd.x(v, keep=[rvar]) for k, v in dkw.items()}
+    # `**{f: getattr(x, f) for f in <literal names>}` is unrolled into keywords
+    if astar is not None and sum(1 for k_ in actor.keywords if k_.arg is None) == 1:
+        un = _unroll_name_dict(fxa.x(astar, keep=[tvar]))
+        if un is not None and not (set(un) & set(akw)):
+            akw.update(un)
+            astar = None
+    if dstar is not None and sum(1 for k_ in dctor.keywords if k_.arg is None) == 1:
+        un = _unroll_name_dict(fxd.x(dstar, keep=[rvar]))
+        if un is not None and not (set(un) & set(dkw)):
+            dkw.update(un)
+            dstar = None
     # names of the freshly built objects
     def built_name(fx, ctor):
         for n in walk_no_nested(fx.f.node):
@@ -2491,6 +2593,24 @@ def ob_order(ctx, o, F):
             elif isinstance(n, ast.Call):
                 if isinstance(n.func, ast.Attribute) and n.func.attr in _REORDER_M and not isinstance(pm.get(id(n)), (ast.For, ast.comprehension)):
                     o.refute(f, n, src(n)[:80], f"`{src(n)[:60]}` reorders a sequence that must stay in file / WBS order")
+                elif _worklist_push(f, n, pm) is not None:
+                    wl = _worklist_push(f, n, pm)
+                    if wl[0] == 'reversed':
+                        o.refute(f, n, src(n)[:80],
+                                 f"tree walk with the work list `{wl[1]}`: `{src(n)[:60]}` pushes the children in their own order and `{src(wl[2])[:30]}` takes "
+                                 f"the next task from the {wl[3]} - "
+                                 + ("deque.extendleft inserts the items one by one, so they end up in reversed order" if wl[3] == 'front'
+                                    else "the last child pushed is taken first")
+                                 + ": siblings come out in REVERSED order (expected the children pushed through reversed(..))")
+                    elif wl[0] == 'preorder':
+                        o.site(f, n, f"pre-order walk: {src(n)[:50]} / {src(wl[2])[:30]}")
+                    else:
+                        o.undecided(f, n, n, f"tree walk with the work list `{wl[1]}`: the order it produces is not recognised")
+                elif isinstance(n.func, ast.Name) and n.func.id == 'reversed' and isinstance(pm.get(id(n)), ast.Call) \
+                        and _worklist_push(f, pm.get(id(n)), pm) is not None:
+                    pass        # judged with the push
+                elif isinstance(n.func, ast.Name) and n.func.id == 'reversed' and _seeds_end_stack(f, n, pm):
+                    o.site(f, n, f"stack seeded with {src(n)[:40]} and taken from the end: first element first")
                 elif isinstance(n.func, ast.Name) and n.func.id in ('sorted', 'reversed') and not _inside_iter(n, pm) \
                         and not _order_neutral(n, pm, fx):
                     o.refute(f, n, src(n)[:80], f"`{src(n)[:60]}` reorders a sequence that must stay in file / WBS order")
@@ -2730,6 +2850,64 @@ def _returns_accumulator(ctx, fn) -> bool:
         return False
     return all(n.func.attr == 'append' for n in walk_no_nested(fn.node) if isinstance(n, ast.Call) and isinstance(n.func, ast.Attribute)
                and isinstance(n.func.value, ast.Name) and n.func.value.id == name)
+
+
+def _take_sides(f, w):
+    sides = set()
+    for n in walk_no_nested(f.node):
+        if isinstance(n, ast.Call) and isinstance(n.func, ast.Attribute) and isinstance(n.func.value, ast.Name) and n.func.value.id == w:
+            if n.func.attr == 'pop' and not n.args:
+                sides.add('end')
+            elif n.func.attr == 'popleft' or (n.func.attr == 'pop' and len(n.args) == 1 and isinstance(n.args[0], ast.Constant) and n.args[0].value == 0):
+                sides.add('front')
+    return sides
+
+
+def _seeds_end_stack(f, rev_call, pm) -> bool:
+    """`W = list(reversed(X))` / `W = deque(reversed(X))` / `W = [*reversed(X)]` where W is only ever taken from with W.pop():
+    the reversal is what makes the stack hand out X front to back"""
+    cur = rev_call
+    while id(cur) in pm and not isinstance(cur, ast.stmt):
+        nxt = pm[id(cur)]
+        if isinstance(nxt, ast.Call) and not (isinstance(nxt.func, ast.Name) and nxt.func.id in ('list', 'deque') and len(nxt.args) == 1):
+            return False
+        if isinstance(nxt, (ast.BinOp, ast.Subscript, ast.Attribute, ast.comprehension, ast.ListComp)):
+            return False
+        cur = nxt
+    return isinstance(cur, ast.Assign) and len(cur.targets) == 1 and isinstance(cur.targets[0], ast.Name) \
+        and _take_sides(f, cur.targets[0].id) == {'end'}
+
+
+def _worklist_push(f, call, pm):
+    """call = W.extend(A) / W.extendleft(A) on a local work list W from which the same function takes elements one by one
+    (W.pop() from the end, W.popleft() / W.pop(0) from the front)  ->  (verdict, W, take call, 'end'|'front')
+    verdict: 'preorder' (push side == take side, A = reversed(children)), 'reversed' (same side, A not reversed), 'other'"""
+    if not (isinstance(call, ast.Call) and isinstance(call.func, ast.Attribute) and call.func.attr in ('extend', 'extendleft')
+            and isinstance(call.func.value, ast.Name) and len(call.args) == 1):
+        return None
+    w = call.func.value.id
+    takes = []
+    for n in walk_no_nested(f.node):
+        if isinstance(n, ast.Call) and isinstance(n.func, ast.Attribute) and isinstance(n.func.value, ast.Name) and n.func.value.id == w:
+            if n.func.attr == 'pop' and not n.args:
+                takes.append((n, 'end'))
+            elif n.func.attr == 'popleft' or (n.func.attr == 'pop' and len(n.args) == 1 and isinstance(n.args[0], ast.Constant) and n.args[0].value == 0):
+                takes.append((n, 'front'))
+    if not takes:
+        return None
+    if len({side for _n, side in takes}) != 1:
+        return 'other', w, takes[0][0], takes[0][1]
+    take, side = takes[0]
+    push_side = 'end' if call.func.attr == 'extend' else 'front'
+    a = call.args[0]
+    rev = isinstance(a, ast.Call) and isinstance(a.func, ast.Name) and a.func.id == 'reversed' and len(a.args) == 1
+    inner = a.args[0] if rev else a
+    if any(isinstance(x, ast.Call) and isinstance(x.func, ast.Name) and x.func.id in ('sorted', 'reversed', 'set') for x in ast.walk(inner)) \
+            or (isinstance(inner, ast.Subscript) and isinstance(inner.slice, ast.Slice)):
+        return 'other', w, take, side
+    if push_side != side:
+        return 'other', w, take, side        # breadth-first or mixed
+    return ('preorder' if rev else 'reversed'), w, take, side
 
 
 def _order_neutral(call, pm, fx):
